@@ -39,6 +39,26 @@ pub struct CloneCase {
     /// A faulty handle may observe anything but a panic; every other handle must be unaffected.
     #[serde(default)]
     pub faults: Vec<Vec<(u64, Decision)>>,
+    /// bit rot in one entry's data (entry index, position seed): errors (bad checksum, decoder errors) are then
+    /// part of what every handle must observe - exactly as it would alone, whatever the other handles did before
+    #[serde(default)]
+    pub damage: Option<(usize, u64)>,
+}
+
+/// apply the case's bit rot to the built image
+pub fn damaged_image(b: &crate::indep::build::Built, damage: &Option<(usize, u64)>) -> Vec<u8> {
+    let mut img = b.image.clone();
+    if let Some((i, ps)) = damage {
+        if let Some(inf) = b.infos.get(*i % b.infos.len().max(1)) {
+            if inf.csize > 0 {
+                let p = (inf.data_start + ps % inf.csize) as usize;
+                if p < img.len() {
+                    img[p] ^= 1 << (ps % 8);
+                }
+            }
+        }
+    }
+    img
 }
 
 pub struct Clones;
@@ -243,7 +263,8 @@ impl Scenario for Clones {
         // corrupt stream (wrong password that passed the check byte, say) depends on how its input was chunked,
         // and a clone's reader starts a fresh chunking schedule - that is C09's subject, not a difference
         // between "interleaved" and "alone" (false alarm under VERIF_SEED=3 and 5 with short-read policies).
-        let case = CloneCase { layout: l, scripts, sched_seed: Rng::derive(s, "schedule").next_u64(), policy: Policy::Pure, faults };
+        let damage = if Rng::derive(s, "damage").chance(1, 4) { let mut rd = Rng::derive(s, "damage2"); Some((rd.usize_below(8), rd.next_u64() >> 8)) } else { None };
+        let case = CloneCase { layout: l, scripts, sched_seed: Rng::derive(s, "schedule").next_u64(), policy: Policy::Pure, faults, damage };
         serde_json::to_value(case).unwrap_or(Value::Null)
     }
     fn run(&self, case: &Value, ctx: &mut Ctx) -> Verdict {
@@ -256,7 +277,10 @@ impl Scenario for Clones {
             let e = &c.layout.entries[*ei];
             if e.utf8 { String::from_utf8_lossy(&e.name.0).into_owned() } else { cp437(&e.name.0) }
         }).collect();
-        let store = shared_from(&b.image);
+        let store = shared_from(&damaged_image(&b, &c.damage));
+        if c.damage.is_some() {
+            ctx.probe("an_entry_was_damaged");
+        }
         // solo logs: each script alone on a fresh archive
         let mut solo: Vec<Vec<String>> = vec![];
         for sc in &c.scripts {
@@ -386,6 +410,9 @@ impl Scenario for Clones {
         if c.faults.iter().any(|f| !f.is_empty()) {
             out.push(CloneCase { faults: vec![], ..c.clone() });
         }
+        if c.damage.is_some() {
+            out.push(CloneCase { damage: None, ..c.clone() });
+        }
         for i in 0..c.scripts.len() {
             for j in (0..c.scripts[i].len()).rev() {
                 let mut v = c.scripts.clone();
@@ -419,6 +446,8 @@ pub struct ShuttleCase {
     /// as in part A: failures of individual handles' own readers
     #[serde(default)]
     pub faults: Vec<Vec<(u64, Decision)>>,
+    #[serde(default)]
+    pub damage: Option<(usize, u64)>,
 }
 
 pub struct ClonesShuttle;
@@ -456,7 +485,8 @@ impl Scenario for ClonesShuttle {
         let handles = r.range(2, 4) as usize;
         let scripts = gen_scripts(&mut r, &l, handles);
         let faults = if Rng::derive(s, "swarm").chance(1, 3) { gen_handle_faults(&mut Rng::derive(s, "faults"), handles) } else { vec![] };
-        let case = ShuttleCase { layout: l, scripts, sched_seed: Rng::derive(s, "schedule").next_u64(), pct: if r.chance(1, 2) { Some(r.range(1, 5) as u32) } else { None }, faults };
+        let damage = if Rng::derive(s, "damage").chance(1, 4) { let mut rd = Rng::derive(s, "damage2"); Some((rd.usize_below(8), rd.next_u64() >> 8)) } else { None };
+        let case = ShuttleCase { layout: l, scripts, sched_seed: Rng::derive(s, "schedule").next_u64(), pct: if r.chance(1, 2) { Some(r.range(1, 5) as u32) } else { None }, faults, damage };
         serde_json::to_value(case).unwrap_or(Value::Null)
     }
     #[cfg(not(zip_rs_zip_verif))]
@@ -484,7 +514,7 @@ impl Scenario for ClonesShuttle {
                 }
             })
             .collect();
-        let store = shared_from(&b.image);
+        let store = shared_from(&damaged_image(&b, &c.damage));
         let outcome: Arc<Mutex<Option<Result<u64, String>>>> = Arc::new(Mutex::new(None));
         let out2 = outcome.clone();
         let scripts = c.scripts.clone();
@@ -596,6 +626,9 @@ impl Scenario for ClonesShuttle {
         }
         if c.faults.iter().any(|f| !f.is_empty()) {
             out.push(ShuttleCase { faults: vec![], ..c.clone() });
+        }
+        if c.damage.is_some() {
+            out.push(ShuttleCase { damage: None, ..c.clone() });
         }
         for i in 0..c.scripts.len() {
             for j in (0..c.scripts[i].len()).rev() {
